@@ -27,6 +27,8 @@ type c15Action struct {
 	Read  []string
 	Write []string
 	Pick  int
+	// grantrace only: a second request with the same sets is queued right behind the raced one
+	Behind bool
 }
 
 type c15Req struct {
@@ -391,6 +393,23 @@ func c15Execute(actions []c15Action) (run *c15Run, sig, msg string) {
 				break
 			}
 			r.queued++
+			var follower *c15Req
+			if a.Kind == "grantrace" && a.Behind {
+				// queue a second request behind it (same sets): if the raced request gives its grant back,
+				// nobody but the locker itself can tell this one that the accounts are free
+				follower = r.start(a.Read, a.Write, true, false)
+				if r.state(follower) == "parked-at-queue-gate" {
+					r.queued++
+					follower.open()
+					synctest.Wait()
+					follower.mu.Lock()
+					follower.atGate = false
+					follower.mu.Unlock()
+				} else {
+					follower.open()
+					synctest.Wait()
+				}
+			}
 			if a.Kind == "grantrace" {
 				// release its blockers so that it is granted while it has not reached the select yet ...
 				for _, h := range r.holders() {
@@ -471,6 +490,9 @@ func c15GenActions(t *rapid.T) []c15Action {
 	for i := range out {
 		k := rapid.SampledFrom([]string{"request", "request", "request", "request", "release", "release", "release", "cancel", "grantrace", "grantrace", "cancelqueued", "precancelled", "enqueuerace", "enqueuerace"}).Draw(t, "kind")
 		a := c15Action{Kind: k, Pick: rapid.IntRange(0, 7).Draw(t, "pick")}
+		if k == "grantrace" {
+			a.Behind = rapid.Bool().Draw(t, "behind")
+		}
 		if k != "release" && k != "cancel" {
 			a.Read, a.Write = set("read"), set("write")
 			if len(a.Read)+len(a.Write) == 0 {
@@ -484,7 +506,7 @@ func c15GenActions(t *rapid.T) []c15Action {
 
 func TestC15(t *testing.T) {
 	c := evid.New("C15")
-	c.Rule = "action lists of 3-24 steps over accounts {a,b,c}: request(read set, write set; overlapping and duplicate entries allowed), release(a holder), cancel(a waiter), precancelled request, cancel-queued (cancel a queued request before it reaches its wait), grant-race (hold a queued request in front of its wait, release its blockers so that it is granted, cancel it, let it go: both outcomes ready), enqueue-race (hold a request between its failed attempt and its queueing, release its blockers meanwhile, let it queue). Each list is executed 6 times on a fresh locker inside a synctest bubble (Go's select is random when both outcomes are ready). After every step: exclusion among Lock calls that have returned, no request left waiting that no holder blocks, cancelled requests return, errors only for cancelled requests; at the end: drain, nobody waits, and a probe for all accounts on an already-cancelled context is granted (only possible when nothing is left locked). Non-trivial = a list with a queued request and a cancellation, or a grant-race; distinct by action list."
+	c.Rule = "action lists of 3-24 steps over accounts {a,b,c}: request(read set, write set; overlapping and duplicate entries allowed), release(a holder), cancel(a waiter), precancelled request, cancel-queued (cancel a queued request before it reaches its wait), grant-race (hold a queued request in front of its wait, optionally queue a second request with the same sets behind it, release its blockers so that it is granted, cancel it, let it go: both outcomes ready), enqueue-race (hold a request between its failed attempt and its queueing, release its blockers meanwhile, let it queue). Each list is executed 6 times on a fresh locker inside a synctest bubble (Go's select is random when both outcomes are ready). After every step: exclusion among Lock calls that have returned, no request left waiting that no holder blocks, cancelled requests return, errors only for cancelled requests; at the end: drain, nobody waits, and a probe for all accounts on an already-cancelled context is granted (only possible when nothing is left locked). Non-trivial = a list with a queued request and a cancellation, or a grant-race; distinct by action list."
 	c.Assumptions = []string{"state is observed from outside (returned Lock calls); the locker's maps are never read", "the verifhook point lock.queued (between queueing and the select) is the only place where the harness delays the locker"}
 	hookctx.Install()
 	runProp(t, c, func(rt *rapid.T) {
